@@ -112,9 +112,9 @@ package types
 //@   requires wfT(ty) && wfSubst(m)
 //@   unfold wfT(ty)
 //@   modifies
-//@   loop 1 invariant len(ks) == len(t.Val) && isfresh(ks) && forall(j, 0, rangeindex+1, wfT(ks[j]) && allocated(ks[j]))
-//@   loop 2 invariant len(fs) == len(o.Fields) && isfresh(fs) && forall(j, 0, rangeindex+1, wfT(fs[j].Val) && allocated(fs[j].Val) && fs[j].Name == o.Fields[j].Name)
-//@   loop 3 invariant len(params) == len(f.Param) && isfresh(params) && forall(j, 0, rangeindex+1, wfT(params[j]) && allocated(params[j]))
+//@   loop 1 invariant len(ks) == len(ty.Tuple().Val) && isfresh(ks) && forall(j, 0, rangeindex+1, wfT(ks[j]) && allocated(ks[j]))
+//@   loop 2 invariant len(fs) == len(ty.Obj().Fields) && isfresh(fs) && forall(j, 0, rangeindex+1, wfT(fs[j].Val) && allocated(fs[j].Val) && fs[j].Name == ty.Obj().Fields[j].Name)
+//@   loop 3 invariant len(params) == len(ty.Fun().Param) && isfresh(params) && forall(j, 0, rangeindex+1, wfT(params[j]) && allocated(params[j]))
 //@   unfold @return wfT(result)
 //@   ensures #wf wfT(result) && result != nil
 //@   ensures #rebuilt ty.Kind > kCompositeBegin ==> isfresh(result)
